@@ -398,7 +398,7 @@ func runConn(svc services.Servicer, sp Spec, idx int) (ob ConnObs, gone bool) {
 	case "obs-leak":
 		ob.perturbGor = 1
 	case "obs-deadlines":
-		ob.Timeouts += 3
+		ob.Timeouts += 4
 	}
 	return
 }
